@@ -239,6 +239,66 @@ def serde_and_change(ctx, prog):
     A.require('OrderedSet::try_from<Vec>/element-wise-through-append', paths, r_tf, replay=REPLAY)
 
 
+    # OneOrSet::append: a refused duplicate leaves the collection exactly as it was; from One, an accepted element makes [old, new]
+    from execu import VOver
+    def m_replace(ex_, st, fr, name, args, dty):
+        # std::mem::replace(&mut x, new): returns what x held and stores new (precise, so that the match on the old value is exact)
+        if not isinstance(args[0], VRef):
+            return None
+        old = ex_.load(st, args[0].cell, args[0].path)
+        ex_.store(st, args[0].cell, args[0].path, args[1])
+        return [(st, old, 'ok', '')]
+    f = prog.one(r'one_or_set::<impl at [^>]*>::append$')
+    paths, ex = A.paths(f, extra_models=[(re.compile(r'(^|::)mem::replace$'), m_replace)])
+
+    def r_osa(p):
+        if p.kind != 'return':
+            return 'panic ' + p.msg
+        mem = p.st.mem.get('sym:self')
+        written = isinstance(mem, VOver)
+        mt = ex.to_term(p.st, mem) if written else None
+        if isinstance(p.val, VBool) and p.implies(z3.Not(p.val.e)):
+            if written and mentions(mt, r'^item$'):
+                return 'append returned false but stored the rejected element'
+            return None
+        da = [c for c in p.calls if re.search(r'OrderedSet::append$', c.name)]
+        if da:
+            # Set state: OrderedSet::append decides (its own obligations: K / M above)
+            return None if strip(da[0].args[1]) == ('leaf', 'item') and isinstance(p.val, VBool) and p.implies(p.val.e == ex.sym_bool(da[0].ret).e) else \
+                'Set state: result is not OrderedSet::append(item)'
+        fi = [c for c in p.calls if re.search(r'FromIterator<T>>::from_iter$|OrderedSet::from_iter$', c.name)]
+        if not written or len(fi) != 1:
+            return 'append returned true without storing a set built from the old and the new element'
+        arr = strip(fi[0].args[0])
+        if not (isinstance(arr, tuple) and arr[0] == 'agg' and len(arr[3]) == 2 and strip(arr[3][1]) == ('leaf', 'item') and not mentions(arr[3][0], r'^item$')):
+            return 'the new set is not [old element, new element]'
+        return None
+    A.require('OneOrSet::append/refused-leaves-it-untouched-accepted-appends-at-the-end', paths, r_osa, replay={'scenario': 'collections', 'cex': {'only': '[append]'}})
+
+    # OneOrMany::from_iter: exactly one element gives One on every route - the route that collects into a Vec normalises through
+    # From<Vec<T>> (audited above), it does not wrap the Vec in Many itself
+    f = prog.one(r'one_or_many::<impl at [^>]*>::from_iter$')
+    paths, ex = A.paths(f, unwind=2, allow_bound=True)
+
+    def r_ofi(p):
+        if p.kind != 'return':
+            return 'panic ' + p.msg
+        t = strip_into(p.term())
+        col = apps(p.term(), r'Iterator>::collect$')
+        if col:
+            top = p.term()
+            while isinstance(top, tuple) and top and top[0] in ('ref', 'deref'):
+                top = top[1]
+            if not (isinstance(top, tuple) and top[0] == 'app' and re.search(r'<Vec<T> as (\w+::)*Into<OneOrMany<T>>>::into$|<OneOrMany<T> as (\w+::)*From<Vec<T>>>::from$', top[1])):
+                return 'collected vector wrapped without the singleton normalisation of From<Vec<T>>'
+        return None
+    A.require('OneOrMany::from_iter/collected-vector-goes-through-From<Vec>', paths, r_ofi, replay={'scenario': 'collections', 'cex': {'only': '[collect]'}})
+
+
+def strip_into(t):
+    return t
+
+
 def kani_part(ctx):
     import kanirun
     fn = ['OrderedSet::from_iter (projection key)', 'OrderedSet::append', 'OrderedSet::prepend', 'OrderedSet::remove', 'OrderedSet::replace', 'OrderedSet::update', 'OrderedSet::change',
